@@ -600,3 +600,55 @@ Lemma perm_by_compute l1 l2 : zdup l1 = false -> zdup l2 = false -> same_set l2 
 Proof.
   intros A B. apply same_set_perm; apply zdup_false_NoDup; assumption.
 Qed.
+
+(* ---------------- unconditional coherence preservation (used by C05) ----------------
+   for ANY arguments: whenever the operation returns a table, that table is coherent *)
+Lemma errcheck_NoDup t t' : errcheck t = ROk t' -> t' = t /\ NoDup (oids t) /\ NoDup (sids t).
+Proof.
+  unfold errcheck. destruct (zdup (oids t)) eqn:A; [discriminate|]. destruct (zdup (sids t)) eqn:B; [discriminate|].
+  simpl. intros H. inversion H; subst. split; [reflexivity|]. split; apply zdup_false_NoDup; assumption.
+Qed.
+
+Theorem sort_order_wf order a t t' : wf t -> sort_order order a t = ROk t' -> wf t'.
+Proof.
+  intros W H. unfold sort_order in H. destruct (lookup_all order (ids a t)) as [fancy|] eqn:Hf; [|discriminate].
+  apply errcheck_NoDup in H. destruct H as (-> & No & Ns).
+  apply wf_reorder; [exact W|exact Hf|]. destruct a; simpl in *; assumption.
+Qed.
+
+Theorem sort_wf (sortf : list Z -> list Z) a t t' : wf t -> sort sortf a t = ROk t' -> wf t'.
+Proof. unfold sort. apply sort_order_wf. Qed.
+
+Theorem update_ids_wf m a strict inplace t t' : wf t -> update_ids m a strict inplace t = ROk t' -> wf t'.
+Proof.
+  intros W H. assert (H' : update_ids m a strict false t = ROk t').
+  { destruct inplace; [rewrite <- update_ids_inplace_same|]; exact H. }
+  clear H. unfold update_ids, new_ids in H'.
+  destruct (strict && negb (forallb (mapped m) (ids a t))); [discriminate|].
+  rewrite copy_id in H'. apply errcheck_NoDup in H'. destruct H' as (-> & No & Ns).
+  apply wf_set_ids; [exact W| |apply map_length]. destruct a; simpl in *; assumption.
+Qed.
+
+Theorem align_to_wf_gen other_t m t t' : wf t -> align_to other_t m t = ROk t' -> wf t'.
+Proof.
+  intros W H. unfold align_to in H. destruct m.
+  - destruct (same_set (sids t) (sids other_t)); [|discriminate]. eapply sort_order_wf; eassumption.
+  - destruct (same_set (oids t) (oids other_t)); [|discriminate]. eapply sort_order_wf; eassumption.
+  - destruct (same_set (oids t) (oids other_t) && same_set (sids t) (sids other_t)); [|discriminate].
+    destruct (sort_order (oids other_t) Obs t) as [t1|] eqn:E1; simpl in H; [|discriminate].
+    eapply sort_order_wf; [|exact H]. eapply sort_order_wf; eassumption.
+  - destruct (same_set (oids t) (oids other_t) || same_set (sids t) (sids other_t)); [|discriminate].
+    assert (G : forall t1, wf t1 ->
+              (if same_set (oids t) (oids other_t) then sort_order (oids other_t) Obs t1 else ROk t1) = ROk t' -> wf t').
+    { intros t1 W1 H1. destruct (same_set (oids t) (oids other_t)).
+      - eapply sort_order_wf; eassumption.
+      - inversion H1; subst. exact W1. }
+    destruct (same_set (sids t) (sids other_t)).
+    + destruct (sort_order (sids other_t) Samp t) as [t1|] eqn:E1; simpl in H; [|discriminate].
+      apply (G t1); [eapply sort_order_wf; eassumption|exact H].
+    + simpl in H. apply (G t); assumption.
+  - discriminate.
+Qed.
+
+Theorem align_to_wf other_t m t t' : wf t -> wf other_t -> align_to other_t m t = ROk t' -> wf t'.
+Proof. intros W _. apply align_to_wf_gen. exact W. Qed.
